@@ -5,6 +5,7 @@
 From Coq Require Import List Bool NArith.
 From ACV Require Import Model.Field Model.Registry Model.Accumulator Model.AccProof
      Proofs.FieldP Proofs.RegistryP Proofs.AccumulatorP Proofs.AccProofP.
+From ACV Require Import Model.Pres Proofs.PresP.
 Import ListNotations.
 
 (** the sub-protocol: with a handle valid for the statement's registry value the verifier recomputes the
@@ -63,3 +64,22 @@ Proof. exact single_del_correct. Qed.
 Theorem C06_public_update_self : forall K, is_field K -> feqb_ok K -> forall alpha C y V,
   single_update K C y V (Vnext K alpha V [] [y]) [] [y] = C.
 Proof. exact single_del_self. Qed.
+
+(** the same for a revocation or set-membership statement: it is only satisfied by an accumulator proof whose
+    element response is the response the referenced signature proof carries for the referenced claim (with
+    C06_membership_proof_extract and C06_link_response above the element proved a member is therefore the signed
+    claim), and whose recomputed commitments are covered by the challenge *)
+Theorem C06_accept_revocation_link : forall K, feqb_ok K -> forall (S : schema K) (P : pres K) fs,
+  verify_with K S P fs = Accept ->
+  forall sid ref claim, In (SRev K sid ref claim) S ->
+  exists pid fin hid mp it, lookup sid (proofs K P) = Some (PRev K pid mp fin) /\
+    sig_hidden K S P ref = Some hid /\ lookup claim hid = Some mp /\
+    items K S P = Some it /\ fs (Some it) = true /\ In fin it.
+Proof. exact accept_revocation_link. Qed.
+Theorem C06_revocation_response_mismatch_rejected : forall K, feqb_ok K -> forall (S : schema K) (P : pres K) fs sid ref claim pid sy fin hid mp,
+  In (SRev K sid ref claim) S -> lookup sid (proofs K P) = Some (PRev K pid sy fin) ->
+  sig_hidden K S P ref = Some hid -> lookup claim hid = Some mp -> sy <> mp ->
+  verify_with K S P fs <> Accept.
+Proof. exact revocation_response_mismatch_rejected. Qed.
+Print Assumptions C06_accept_revocation_link.
+Print Assumptions C06_revocation_response_mismatch_rejected.
